@@ -13,8 +13,12 @@
    cannot fire), [run_atomic_exists].
    [RunOK p pa a]: at every access micro-operation on a executed in a state
    reachable from init_exec, [SideOK] holds:
-     (i)   the index replayed by choose_store is a candidate (exploration-level
-           fact; automatic while the path is being extended);
+     (i)   the index that choose_store answers for the candidate list of THIS
+           access ([micro_seed]) is a candidate, if the list is not empty
+           (exploration-level fact; AtomicRun3: automatic while the path is
+           being extended.  The clause must not quantify over all candidate
+           lists: a replayed entry answers its recorded index whatever the
+           list, and a fresh entry for the empty list answers 0);
      (ii)  the ring of a is not full (at_cnt < MAX_ATOMIC_HISTORY);
      (iii) vle (t_rel t0) (t_caus t0) for the accessing thread -- an invariant
            of executions (t_rel is only ever set to a snapshot of t_caus), NOT
@@ -905,18 +909,39 @@ Proof.
   inversion Hex as [[He' Hx]]. split; [exact Hga | rewrite Hcl; reflexivity].
 Qed.
 
-(* what is assumed, at an access micro-operation of thread me on a in state e *)
-Definition SideOK (a : nat) (e : exec) (me : nat) : Prop :=
+(* the candidate list that the access micro-operation m of thread me hands to
+   choose_store (after its causality_inc), if it has a load half *)
+Definition micro_seed (s : atomic_state) (me : nat) (t0 : thread) (m : micro)
+  : option (option (list nat)) :=
+  match m with
+  | MLoadPost _ o _ =>
+      Some (match_load_to_stores s me (vv_inc (t_caus t0) me) (t_last_yield t0) o)
+  | MFuLoadPost _ _ _ _ fo =>
+      Some (match_load_to_stores s me (vv_inc (t_caus t0) me) (t_last_yield t0) fo)
+  | MRmwPost _ _ _ _ => Some (match_rmw_to_stores s)
+  | MBoLoad _ _ _ _ _ _ | MBsLoad _ _ _ _ _ _ _ =>
+      Some (match_load_to_stores s me (vv_inc (t_caus t0) me) (t_last_yield t0) Acquire)
+  | _ => None
+  end.
+
+(* what is assumed, at the access micro-operation m of thread me on a in state e.
+   The last clause is about the decision stack: the index that choose_store
+   answers FOR THE CANDIDATE LIST OF THIS ACCESS is one of the candidates.
+   (Quantifying over all candidate lists would be unsatisfiable: a replayed
+   entry answers a recorded index whatever the list, and a fresh entry for the
+   empty list answers 0.) *)
+Definition SideOK (a : nat) (e : exec) (me : nat) (m : micro) : Prop :=
   me < MAX_THREADS /\
   (forall t0, get_thread e me = Some t0 -> vle (t_rel t0) (t_caus t0)) /\
   (forall s, get_atomic e a = Some s -> at_cnt s < MAX_ATOMIC_HISTORY) /\
-  (forall seed e2 idx l,
-     choose_store (causality_inc e me) seed = (e2, inl idx) -> seed = Some l -> In idx l).
+  (forall s t0 seed e2 idx l,
+     get_atomic e a = Some s -> get_thread e me = Some t0 -> micro_seed s me t0 m = Some seed ->
+     choose_store (causality_inc e me) seed = (e2, inl idx) -> seed = Some l -> l <> [] -> In idx l).
 
 (* all eight access micro-operations are steps of the generalised machine *)
 Theorem acc_step_is_bstep : forall a e me m e1 s t0,
   acc_on a m -> get_thread e me = Some t0 -> get_atomic e a = Some s ->
-  GoodS (s, pclocks e) -> SideOK a e me -> exec_micro e me m = MOk e1 ->
+  GoodS (s, pclocks e) -> SideOK a e me m -> exec_micro e me m = MOk e1 ->
   exists s1 b, access_bop b /\ me < length (clocks e) /\
                get_atomic e1 a = Some s1 /\
                bstep (s, clocks e) me b = Some (s1, clocks e1).
@@ -925,21 +950,36 @@ Proof.
   destruct (@Good_never_none (s, pclocks e) (GoodS_Good HG)) as [Hnn Hnr]. cbn [fst] in Hnn, Hnr.
   pose proof (@mb_me e me t0 Hth) as Hme.
   pose proof (Hrel t0 Hth) as Hrel0. pose proof (Hring s Hat) as Hroom.
+  assert (Hc1 : 1 <= at_cnt s).
+  { destruct HG as [[own [rk [HI _]]] _]. cbn [fst] in HI. exact (i_cnt1 HI). }
+  assert (HrepL : forall o e2 idx l,
+            micro_seed s me t0 m = Some (match_load_to_stores s me (vv_inc (t_caus t0) me) (t_last_yield t0) o) ->
+            choose_store (causality_inc e me)
+              (match_load_to_stores s me (vv_inc (t_caus t0) me) (t_last_yield t0) o) = (e2, inl idx) ->
+            match_load_to_stores s me (vv_inc (t_caus t0) me) (t_last_yield t0) o = Some l -> In idx l).
+  { intros o e2 idx l H0 H1 H2. apply (Hrep s t0 _ e2 idx l Hat Hth H0 H1 H2).
+    apply (candidates_nonempty _ _ _ _ _ _ H2 Hc1). }
+  assert (HrepR : forall e2 idx l,
+            micro_seed s me t0 m = Some (match_rmw_to_stores s) ->
+            choose_store (causality_inc e me) (match_rmw_to_stores s) = (e2, inl idx) ->
+            match_rmw_to_stores s = Some l -> In idx l).
+  { intros e2 idx l H0 H1 H2. apply (Hrep s t0 _ e2 idx l Hat Hth H0 H1 H2).
+    apply (rmw_candidates_nonempty _ _ H2 Hc1). }
   destruct m; cbn [acc_on] in Hacc; try contradiction; subst.
   - (* MLoadPost *)
     destruct (@MLoadPost_is_step_nn e me a o aw e1 t0 s Hth Hat Hnn
-                (fun e2 idx l H1 H2 => Hrep _ e2 idx l H1 H2) Hx) as (s1 & idx & H1 & H2).
+                (fun e2 idx l H1 H2 => HrepL _ e2 idx l eq_refl H1 H2) Hx) as (s1 & idx & H1 & H2).
     exists s1, (BOp (XLoad idx o)). repeat split; first [assumption | exact I].
   - (* MFuLoadPost *)
     destruct (@MFuLoadPost_is_step_nn e me a f v so fo e1 t0 s Hth Hat Hnn
-                (fun e2 idx l H1 H2 => Hrep _ e2 idx l H1 H2) Hx) as (s1 & idx & H1 & H2).
+                (fun e2 idx l H1 H2 => HrepL _ e2 idx l eq_refl H1 H2) Hx) as (s1 & idx & H1 & H2).
     exists s1, (BOp (XLoad idx fo)). repeat split; first [assumption | exact I].
   - (* MStorePost *)
     destruct (@MStorePost_is_step e me a v o e1 t0 s Hth Hat Hroom Hrel0 Hx) as (s1 & H1 & H2).
     exists s1, (BStoreR (t_rel t0) v o). repeat split; first [assumption | exact I].
   - (* MRmwPost *)
     destruct (@MRmwPost_is_step e me a k so fo e1 t0 s Hth Hat Hroom Hrel0
-                (fun e2 idx l H1 H2 => Hrep _ e2 idx l H1 H2) Hnr Hx) as (s1 & idx & H1 & H2).
+                (fun e2 idx l H1 H2 => HrepR e2 idx l eq_refl H1 H2) Hnr Hx) as (s1 & idx & H1 & H2).
     exists s1, (BRmwR (t_rel t0) idx (rmw_fun k) so fo). repeat split; first [assumption | exact I].
   - (* MUnsyncLoad *)
     destruct (@MUnsyncLoad_is_step e me a e1 t0 s Hth Hat Hx) as (s1 & H1 & H2).
@@ -951,7 +991,7 @@ Proof.
     cbn [exec_micro] in Hx.
     destruct (load_post e me a Acquire) as [[e2 x]|[e2 p]] eqn:Hlp; [|discriminate].
     destruct (@load_post_is_step e me a Acquire e2 x t0 s Hth Hat Hnn
-                (fun e3 idx l H1 H2 => Hrep _ e3 idx l H1 H2) Hlp) as (s1 & idx & H1 & H2).
+                (fun e3 idx l H1 H2 => HrepL _ e3 idx l eq_refl H1 H2) Hlp) as (s1 & idx & H1 & H2).
     exists s1, (BOp (XLoad idx Acquire)).
     assert (He : get_atomic e1 a = get_atomic e2 a /\ clocks e1 = clocks e2).
     { destruct (N.eqb x v); [|destruct first]; inversion Hx; split;
@@ -961,7 +1001,7 @@ Proof.
     cbn [exec_micro] in Hx.
     destruct (load_post e me a Acquire) as [[e2 x]|[e2 p]] eqn:Hlp; [|discriminate].
     destruct (@load_post_is_step e me a Acquire e2 x t0 s Hth Hat Hnn
-                (fun e3 idx l H1 H2 => Hrep _ e3 idx l H1 H2) Hlp) as (s1 & idx & H1 & H2).
+                (fun e3 idx l H1 H2 => HrepL _ e3 idx l eq_refl H1 H2) Hlp) as (s1 & idx & H1 & H2).
     exists s1, (BOp (XLoad idx Acquire)).
     assert (He : get_atomic e1 a = get_atomic e2 a /\ clocks e1 = clocks e2).
     { destruct (N.eqb x v); inversion Hx; split;
@@ -979,7 +1019,7 @@ Definition RunOK (p : prog) (pa : path) (a : nat) : Prop :=
   forall e me t m rest,
     steps (init_exec p pa) e -> e_active e = Some me ->
     nth_error (e_threads e) me = Some t -> t_cont t = m :: rest -> acc_on a m ->
-    SideOK a (upd_thread e me (fun t => th_set_cont t rest)) me.
+    SideOK a (upd_thread e me (fun t => th_set_cont t rest)) me m.
 
 Lemma steps_goodAt_from : forall p pa a, RunOK p pa a ->
   forall e e', steps e e' -> steps (init_exec p pa) e -> clock_wf e -> track_ok e ->
